@@ -796,3 +796,62 @@ def rg2(m, run, methods):
                 run.ob('RG2.no-unit-range-test-for-un-normalised-shapes', key, True, 'check_params is not reached; the request reaches %s' % (record[0][0] if record else 'the end of the method'),
                        'geomdl/%s.py in %s' % (fi.mod, fi.key))
     return n
+
+
+def wr2(m, run, meth, slot):
+    """WR2: BSpline.{Curve,Surface,Volume}.<meth> hands exactly the request it was given to the operation slot: the parameter list carries each
+    given coordinate at its direction's position (None elsewhere) and the count list carries that direction's num[_d] keyword - also for the
+    coordinate 0.0 and for counts given for one direction only.  Decided by interpreting the wrapper on an abstract object and inspecting the
+    recorded call of the slot."""
+    cases = (('Curve', 1, (2,), (5,)), ('Surface', 2, (2, 1), (4, 5)), ('Volume', 3, (1, 2, 3), (3, 5, 4)))
+    for cname, pdim, degs, sizes in cases:
+        fi = m.lookup(('BSpline', cname), meth, 'methods')
+        if fi is None:
+            raise AnalysisError('BSpline.%s.%s not found' % (cname, meth))
+        ps = [a.arg for a in fi.node.args.args][1:]
+        scen = []
+        for d in range(pdim):
+            scen.append(('only %s, at 0.0' % 'uvw'[d], {d: 0.0}, {d: 2}))
+            if pdim > 1:
+                scen.append(('only %s, the other counts given as 0' % 'uvw'[d], {d: 0.5}, {e: (2 if e == d else 0) for e in range(pdim)}))
+        scen.append(('all directions', {d: 0.25 * (d + 1) for d in range(pdim)}, {d: d + 2 for d in range(pdim)}))
+        for label, params, counts in scen:
+            record = []
+            obj = abstract_shape(cname, pdim, degs, sizes, False, record)
+            args = []
+            for p_ in ps:
+                if pdim == 1:
+                    args.append(params.get(0))
+                else:
+                    args.append(params.get('uvw'.index(p_)) if p_ in 'uvw' else None)
+            kw = {('num' if pdim == 1 else 'num_' + 'uvw'[d]): c for d, c in counts.items()}
+            sk = SK(m, dict(STD_ABSTRACTED))
+            key = 'BSpline.%s.%s :: %s' % (cname, meth, label)
+            try:
+                sk.call(fi, [obj] + args, kw)
+            except Violation as v:
+                run.ob('WR2.wrapper-hands-on-the-request', key, v.rule == 'RAISE' and False, '%s %s' % (v.msg, v.where()), 'geomdl/%s.py in %s' % (fi.mod, fi.key))
+                continue
+            except Unsupported as ex:
+                raise AnalysisError('%s: interpreter met an unsupported construct: %s' % (key, ex))
+            calls = [r for r in record if r[0] == slot]
+            why = None
+            if len(calls) != 1:
+                why = 'the operation is called %d times: the request is %s' % (len(calls), 'silently ignored' if not calls else 'applied more than once')
+            else:
+                a = calls[0][1]
+                plist = list(a[1]) if len(a) > 1 and isinstance(a[1], (list, tuple)) else None
+                nlist = list(a[2]) if len(a) > 2 and isinstance(a[2], (list, tuple)) else None
+                if a[0] is not obj:
+                    why = 'the operation does not receive the object itself'
+                elif plist is None or nlist is None or len(plist) != pdim or len(nlist) != pdim:
+                    why = 'parameter / count lists are not %d-element lists: %r %r' % (pdim, plist, nlist)
+                else:
+                    for d in range(pdim):
+                        want_p = params.get(d)
+                        if plist[d] != want_p or (want_p is not None and plist[d] is None):
+                            why = 'direction %s: the operation receives the parameter %r, the request was %r' % ('uvw'[d], plist[d], want_p)
+                        elif d in params and nlist[d] != counts[d]:
+                            why = 'direction %s: the operation receives the count %r, the request was %r' % ('uvw'[d], nlist[d], counts[d])
+            run.ob('WR2.wrapper-hands-on-the-request', key, why is None, 'the slot receives the coordinates and counts of the request in (u, v, w) order' if why is None else why,
+                   'geomdl/%s.py in %s' % (fi.mod, fi.key))
